@@ -805,6 +805,99 @@ pub fn run(rep: &'static Report) {
         }
     }
 
+    // name and password at their longest (a 128-byte name, the longest the tool takes, with passwords of 32, 300 and 2000
+    // bytes), the very same inputs three times into three files: three different private keys, public keys and salts --
+    // what is typed must not crowd the randomness out of the key
+    {
+        let long_name = "n".repeat(128);
+        let pws = ["p".repeat(32), "y".repeat(300), "z".repeat(2000)];
+        let per: Vec<Result<Vec<(String, Vec<u8>)>, String>> = pws
+            .par_iter()
+            .map(|pw| {
+                let attempt = || -> Result<Vec<(String, Vec<u8>)>, String> {
+                    let mut vals = vec![];
+                    for round in 0..3 {
+                        let sc = Scratch::new();
+                        let out = proc::run(&Cmd::new(&["key", "generate", "-o", "ring.txt", "--env-pass"]).env("KESTREL_PASSWORD", pw).stdin(format!("{}\n", long_name).as_bytes()), &sc.0);
+                        if !out.ok() {
+                            return Err(format!("key generate with a 128-byte name and a {}-byte password failed: {}", pw.len(), out.summary()));
+                        }
+                        let txt = String::from_utf8_lossy(&sc.read("ring.txt").unwrap_or_default()).to_string();
+                        let pk = txt.lines().find_map(|l| l.strip_prefix("PublicKey = ")).ok_or("no PublicKey line")?.trim().to_string();
+                        let l = txt.lines().find_map(|l| l.strip_prefix("PrivateKey = ")).ok_or("no PrivateKey line")?.trim().to_string();
+                        let blob = r::b64_decode(&l).filter(|b| b.len() == 84).ok_or("PrivateKey is not an 84-byte base64 string")?;
+                        let tag = format!("128-byte name, {}-byte password, generation {}", pw.len(), round + 1);
+                        vals.push((format!("{}: public key", tag), pk.into_bytes()));
+                        vals.push((format!("{}: salt", tag), blob[4..36].to_vec()));
+                        let sk = r::unlock_key(&blob, pw.as_bytes()).ok_or(format!("{}: does not unlock under its password (REF)", tag))?;
+                        vals.push((format!("{}: private key", tag), sk.to_vec()));
+                    }
+                    Ok(vals)
+                };
+                attempt().or_else(|_| attempt())
+            })
+            .collect();
+        rep.eval(9);
+        rep.nontrivial(b"long-name-and-password-fresh");
+        let mut all: Vec<(String, Vec<u8>)> = vec![];
+        for r0 in per {
+            match r0 {
+                Ok(v) => all.extend(v),
+                Err(e) => rep.violation("shapes/operation-failed", json!({"kind":"append"}), e),
+            }
+        }
+        'o2: for i in 0..all.len() {
+            for j in 0..i {
+                if all[i].1 == all[j].1 {
+                    rep.violation("shapes/salt-or-key-reused", json!({"kind":"append"}), format!("identical commands produced the same value twice: [{}] == [{}]", all[j].0, all[i].0));
+                    break 'o2;
+                }
+            }
+        }
+    }
+    // library calls with only PART of the randomness supplied: the payload key given and the ephemeral key left to the library
+    // (three calls: three different ephemeral keys), and the ephemeral pair given and the payload key left to the library
+    // (three calls: three different payload keys, recovered by REF)
+    {
+        let ids = idents(seed);
+        let pay = derive32(seed, "c07-partial-pay");
+        let e = derive32(seed, "c07-partial-e");
+        let e_pub = r::x25519_base(&e);
+        let p = plaintext(seed ^ 0x7b, 20);
+        let mut ephs: Vec<Vec<u8>> = vec![];
+        let mut pays: Vec<Vec<u8>> = vec![];
+        for _ in 0..3 {
+            let mut out = Vec::new();
+            let mut src: &[u8] = &p;
+            let ok = guarded(|| kestrel_crypto::encrypt::key_encrypt(&mut src, &mut out, &ids[0].private(), &ids[0].public(), &ids[1].public(), None, None, Some(&kestrel_crypto::PayloadKey::new(&pay)), kestrel_crypto::AsymFileFormat::V1).is_ok());
+            if ok == Ok(true) && out.len() >= 36 {
+                ephs.push(out[4..36].to_vec());
+            }
+            let mut out2 = Vec::new();
+            let mut src2: &[u8] = &p;
+            let ok2 = guarded(|| kestrel_crypto::encrypt::key_encrypt(&mut src2, &mut out2, &ids[0].private(), &ids[0].public(), &ids[1].public(), Some(&kestrel_crypto::PrivateKey::try_from(&e[..]).unwrap()), Some(&kestrel_crypto::PublicKey::try_from(&e_pub[..]).unwrap()), None, kestrel_crypto::AsymFileFormat::V1).is_ok());
+            if ok2 == Ok(true) {
+                if let Ok(k) = r::read_key_file(&ids[1].sk, &out2) {
+                    pays.push(k.payload_key.to_vec());
+                }
+            }
+        }
+        rep.eval(6);
+        rep.nontrivial(b"partial-randomness");
+        if ephs.len() != 3 || pays.len() != 3 {
+            rep.violation("partial/operation-failed", json!({"kind":"append"}), format!("key_encrypt with part of the randomness supplied failed or wrote a file REF cannot read ({} + {} of 3 + 3)", ephs.len(), pays.len()));
+        }
+        for (what, v) in [("ephemeral public key (payload key supplied, ephemeral key left to the library)", &ephs), ("payload key (ephemeral pair supplied, payload key left to the library)", &pays)] {
+            for i in 0..v.len() {
+                for j in 0..i {
+                    if v[i] == v[j] {
+                        rep.violation("partial/value-reused", json!({"kind":"append"}), format!("two encryptions share their {}: {}", what, hx(&v[i])));
+                    }
+                }
+            }
+        }
+    }
+
     // the same under passwords of particular shapes (empty, one blank, one letter, exactly / just over one HMAC block, long):
     // two generations into one ring, a change of the first key's password to the very same password, and two password
     // encryptions of one plaintext -- every salt and every private key is new, within one password and across all of them
